@@ -232,8 +232,9 @@ CHECKS['C07'] = dict(
          'and its outcome is a verdict or one of the documented refusals (pipeline_outcomes, reader_total); doc_total / doc_total_sharp prove '
          'the same for the END-TO-END model validateDoc (real walker model, error tree, acknowledgement): the only reachable crash outcomes '
          'are the three err_handler call sites listed as findings (plus map inconsistencies the translator excludes); it assembles the theorems '
-         'of C01, C04, C13, C14, C15. NOT modelled and therefore decided only by the fuzz: the HTML and XML sinks as driven from x12n_document, '
-         'logging, the context reader\'s tree building, exceptions swallowed around the acknowledgement visitors. Tied to /repo '
+         'of C01, C04, C13, C14, C15. ctxDoc_total_sharp does the same for the composed context-reader model (only the listed _add_segment '
+         'finding is reachable, plus five tree exits neither proved unreachable nor observed); the XML/HTML sinks are composed in '
+         'Model/DocSinks.lean. NOT modelled: logging, exceptions swallowed around the acknowledgement visitors, file opening. Tied to /repo '
          'by a structural mutation fuzz (22 maps x 49 mutation kinds + arbitrary strings x sink subsets x charsets) through x12n_document, '
          'X12Reader and X12ContextReader.iter_segments: any escaping exception other than the documented refusals is a violation keyed by '
          'exception type and innermost pyx12 call site, with a shrunk replay; the reader-level outcome class is also compared with the model.',
